@@ -341,7 +341,7 @@ func runC07(r *Run) {
 			if rec.ID == idOf(gproto.ServerBound, state.Login, &packet.ServerLogin{}) {
 				sawLS = true
 				l, err := mcpeer.DecodeLoginStart(body(rec), p)
-				if err != nil || l.Name != name || (l.HasUUID && l.UUID != [16]byte(offlineUUID(name))) || (p >= mcpeer.P1_20_2 && !l.HasUUID) {
+				if err != nil || l.Name != name || (l.HasUUID && l.UUID != [16]byte(offlineUUID(name))) || (p >= mcpeer.P1_19_3 && !l.HasUUID) {
 					bad("backend-login-start", rec, "decoded %+v err %v; want name %q uuid %s", l, err, name, offlineUUID(name))
 				}
 			}
